@@ -94,13 +94,20 @@ func Main(id, tier string, seed int64, replayPath string) int {
 	}
 	chk := mk()
 	start := time.Now()
-	res, err := simbuild.Build("/repo", os.Stderr)
+	// VERIF_REPO lets seeded-change evaluations point the check at a scratch
+	// worktree; the registered commands never set it.
+	repo := "/repo"
+	if r := os.Getenv("VERIF_REPO"); r != "" {
+		repo = r
+		fmt.Fprintf(os.Stderr, "NOTE: building garble-sim from %s instead of /repo\n", r)
+	}
+	res, err := simbuild.Build(repo, os.Stderr)
 	if err != nil {
 		fmt.Fprintf(os.Stderr, "INFRA: cannot build garble-sim from /repo: %v\n", err)
 		return 2
 	}
 	world.PruneTemplates(res.Key, 40<<30)
-	env := &Env{Bin: res.Bin, Key: res.Key, Tier: tier, Seed: seed, Workers: runtime.NumCPU(), Repo: "/repo"}
+	env := &Env{Bin: res.Bin, Key: res.Key, Tier: tier, Seed: seed, Workers: runtime.NumCPU(), Repo: repo}
 	if env.Workers > 6 {
 		// Measured: simulated builds stop scaling beyond ~5 concurrent ones on this
 		// VM (cmd/go itself is multi-threaded); more workers only add latency.
@@ -110,6 +117,12 @@ func Main(id, tier string, seed int64, replayPath string) int {
 		fmt.Sscan(w, &env.Workers)
 	}
 	defer env.Close()
+	if cleanup, err := world.SnapshotCorpus(); err != nil {
+		fmt.Fprintf(os.Stderr, "INFRA: corpus snapshot: %v\n", err)
+		return 2
+	} else {
+		env.OnClose(cleanup)
+	}
 	env.ClockSites, env.GlobalRand = res.Report.ClockSites, res.Report.GlobalRand
 	env.SetExtra("instrumented_call_sites", res.Report.Sites)
 	env.SetExtra("unrouted_references", res.Report.Unrouted)
@@ -132,6 +145,16 @@ func Main(id, tier string, seed int64, replayPath string) int {
 	if err != nil {
 		fmt.Fprintf(os.Stderr, "INFRA: generate: %v\n", err)
 		return 2
+	}
+	if only := os.Getenv("VERIF_ONLY"); only != "" {
+		// Debugging aid: keep only the cases whose parameters contain the substring.
+		var kept []*Case
+		for _, c := range cases {
+			if strings.Contains(string(c.Params), only) {
+				kept = append(kept, c)
+			}
+		}
+		cases = kept
 	}
 	fmt.Fprintf(os.Stderr, "%s %s seed=%d: %d cases, %d workers, garble-sim %s\n", id, tier, seed, len(cases), env.Workers, res.Key)
 	results := runAll(chk, env, cases)
@@ -330,7 +353,7 @@ func writeReplay(chk Check, env *Env, c *Case, o *Outcome, v *Violation) (string
 	rc.Traces = o.Traces
 	rc.Expect = v.Key
 	rc.Detail = v.Detail
-	dir := filepath.Join(simbuild.VerifDir(), "replays")
+	dir := filepath.Join(outDir(), "replays")
 	os.MkdirAll(dir, 0o755)
 	name := fmt.Sprintf("%s-%d-%s.json", chk.ID(), env.Seed, sanitize(v.Key))
 	path := filepath.Join(dir, name)
@@ -390,6 +413,15 @@ func replayOne(chk Check, env *Env, known *KnownFindings, path string) int {
 		fmt.Printf("replay %s: no unlisted violation (file expects %q)\n", path, c.Expect)
 	}
 	return exit
+}
+
+// outDir is where evidence/ and replays/ are written: /verif, unless a
+// seeded-change evaluation redirects it with VERIF_OUT.
+func outDir() string {
+	if d := os.Getenv("VERIF_OUT"); d != "" {
+		return d
+	}
+	return simbuild.VerifDir()
 }
 
 // isInfra classifies an engine error.
